@@ -521,6 +521,31 @@ func run(j *Job, evIdx int) map[string]interface{} {
 			}
 			return map[string]interface{}{"kind": "ok", "out": toInts([]byte(s))}
 		})
+	case "eansweep":
+		// compact acceptance table of EAN-8: for every 7-digit prefix in [a0, a0+a1) the digit the encoder appends
+		// (-1 if it refuses the prefix) and the 10-bit mask of final digits it accepts for the 8-digit form
+		return guarded(func() map[string]interface{} {
+			start, cnt := j.A[0], j.A[1]
+			app := make([]int, cnt)
+			mask := make([]int, cnt)
+			for k := 0; k < cnt; k++ {
+				pre := fmt.Sprintf("%07d", start+k)
+				app[k] = -1
+				if bc, err := ean.Encode(pre); err == nil && bc != nil {
+					if c := bc.Content(); len(c) == 8 && c[:7] == pre {
+						app[k] = int(c[7] - '0')
+					} else {
+						app[k] = -2
+					}
+				}
+				for d := 0; d < 10; d++ {
+					if bc, err := ean.Encode(pre + string(rune('0'+d))); err == nil && bc != nil {
+						mask[k] |= 1 << uint(d)
+					}
+				}
+			}
+			return map[string]interface{}{"kind": "ok", "app": app, "mask": mask}
+		})
 	case "bl":
 		return guarded(func() map[string]interface{} { return runBL(j) })
 	case "gf":
